@@ -39,7 +39,7 @@ type statCase struct {
 	Ignore     refproj.Expr
 	Filter     *refexpr.Node
 	FilterText string
-	Alpha      float64 // 0 = flag omitted (default 0.05)
+	Alpha      float64 // 0 = flag omitted (default 0.05); -1 = "-alpha 0" (a legal threshold: nothing is significant)
 	Confidence float64 // 0 = flag omitted (default 0.95)
 }
 
@@ -62,6 +62,9 @@ func (c statCase) effCol() refproj.Expr {
 	return c.Col
 }
 func (c statCase) effAlpha() float64 {
+	if c.Alpha == -1 {
+		return 0
+	}
 	if c.Alpha == 0 {
 		return 0.05
 	}
@@ -114,7 +117,9 @@ func (c statCase) flags(format string) []string {
 	if c.FilterText != "" {
 		a = append(a, "-filter", c.FilterText)
 	}
-	if c.Alpha != 0 {
+	if c.Alpha == -1 {
+		a = append(a, "-alpha", "0")
+	} else if c.Alpha != 0 {
 		a = append(a, "-alpha", strconv.FormatFloat(c.Alpha, 'g', -1, 64))
 	}
 	if c.Confidence != 0 {
@@ -648,7 +653,7 @@ func genStatCase(t *rapid.T) statCase {
 		c.FilterText = refexpr.Print(t, c.Filter)
 	}
 	if vcase.OneIn(t, 4, "alpha") {
-		c.Alpha = rapid.SampledFrom([]float64{0.001, 0.01, 0.1, 0.5, 1}).Draw(t, "alphav")
+		c.Alpha = rapid.SampledFrom([]float64{0.001, 0.01, 0.1, 0.5, 1, -1}).Draw(t, "alphav")
 	}
 	if vcase.OneIn(t, 4, "conf") {
 		c.Confidence = rapid.SampledFrom([]float64{0.5, 0.8, 0.9, 0.99}).Draw(t, "confv")
